@@ -1,7 +1,7 @@
 (* Properties/C05.v -- Decoding untrusted input never panics or hangs. *)
 From Coq Require Import Arith ZArith NArith List Bool.
 From DM Require Import Generated.Symbols Spec.GF256 Model.Outcome Model.Dec Model.Eci Model.Render Model.RSDec
-  Model.Placement Model.Api Proofs.DecProofs Proofs.RenderProofs Proofs.RSDecProofs Proofs.PlacementProofs Proofs.DecodeGlue Proofs.RSTotal Proofs.DecodeSafe.
+  Model.Placement Model.Api Proofs.DecProofs Proofs.RenderProofs Proofs.RSDecProofs Proofs.PlacementProofs Proofs.DecodeGlue Proofs.RSTotal Proofs.LDTotal Proofs.DecodeSafe.
 Import ListNotations.
 
 (* In the model every Rust panic site (assert!, unwrap, slice index, arithmetic overflow of the
@@ -28,10 +28,9 @@ Print Assumptions C05_try_from_bits.
    and the application of the corrections stay inside their slices (no PIndex), never divide by zero (no PDivZero: the
    pivots are non-zero by the branch conditions, the reported roots are non-zero and pairwise different by a sweep over
    the antilog table), never underflow (POverflow), never trip a length / range assertion (PAssert) and terminate
-   (POutOfFuel).  The one panic site that is not excluded is PAssertLD: the cfg!(debug_assertions) block that re-checks
-   the identities (3)/(4) of the recursion after each iteration; it is compiled out of release builds, and that it never
-   fires in debug builds (correctness of the recursion) is decided per case by the differential / fault-enumeration part
-   of the check.  `safe o` is: forall p, o = Panic p -> p = PAssertLD. *)
+   (POutOfFuel).  The one panic site that is not excluded is PAssertLD: the cfg!(debug_assertions) blocks that re-check
+   the identities (3)/(4) of the recursion after each iteration and the triangular solve for gamma in the singular
+   step; they are compiled out of release builds.  (That they never fire is the next group of theorems.)  `safe o` is: forall p, o = Panic p -> p = PAssertLD. *)
 Theorem C05_rs_decoder : forall s cw p,
   length cw = N.to_nat (num_data_codewords s + num_ecc_blocks s * num_ecc_per_block s) ->
   RSDec.decode cw s = Panic p -> p = PAssertLD.
@@ -70,10 +69,29 @@ Example C05_rs_example :
   RSDec.decode [1; 2; 3; 4; 5; 6; 7; 8]%N Square10 = Err ErrorsOutsideRange.
 Proof. split; vm_compute; reflexivity. Qed.
 
+(* ... and the self-checks cannot fire either: the identities (3) H_v y = e_v and (4) H_v w = h_v over GF(256) are
+   invariants of the model's loop -- initial anti-triangular solve, regular step, singular step with its jump of m,
+   the iteration w^k, the Toeplitz solve for gamma and the update of w (Proofs/LDMath.v: the algebra on Hankel rows in
+   characteristic 2; LDBridge.v / LDInv.v: the list computations of the model read through toF; LDTotal.v) -- so the
+   locator search ALWAYS returns a value or TooManyErrors, and for every word of bytes of the symbol's length the
+   error-correction entry point returns a value or an error: no panic in any build *)
+Theorem C05_rs_locator_total : forall syn, Forall byte syn -> no_panic (find_inv_error_locations_levinson_durbin syn).
+Proof. exact levinson_durbin_np. Qed.
+Print Assumptions C05_rs_locator_total.
+
+Theorem C05_rs_decoder_total : forall s cw, Forall byte cw ->
+  length cw = N.to_nat (num_data_codewords s + num_ecc_blocks s * num_ecc_per_block s) -> no_panic (RSDec.decode cw s).
+Proof. exact decode_np. Qed.
+Print Assumptions C05_rs_decoder_total.
+
 (* the same for the whole-symbol entry point: for EVERY pixel array and width *)
 Theorem C05_decode_symbol : forall pixels width p, dm_decode pixels width = Panic p -> p = PAssertLD.
 Proof. exact dm_decode_safe. Qed.
 Print Assumptions C05_decode_symbol.
+
+Theorem C05_decode_symbol_total : forall pixels width, no_panic (dm_decode pixels width).
+Proof. exact dm_decode_no_panic. Qed.
+Print Assumptions C05_decode_symbol_total.
 
 (* non-vacuity / the former witnesses of the defects *)
 Example C05_examples :
